@@ -383,6 +383,72 @@ fn cmd_notes_history(len: usize) {
     println!("{{\"cmd\":\"notes-history\",\"bound\":\"all histories of <= {len} text-note edits (add / update oldest / update newest / remove oldest) on a one-note base file; contents: every code point U+0020..U+02FF alone and after 'A' plus 7 special strings\",\"evaluated\":{},\"disagreement_count\":{},\"disagreements\":[{}]}}", evaluated, nbad, bad.join(","));
 }
 
+// C03 / C05 Eb: every writer configuration (xref streams x object streams x stream compression) x every encryption strength
+// (none, RC4-40, RC4-128, AES-128, AES-256) x passwords {short ASCII, empty user password}: the written file must open with the
+// STRICT parser (no recovery), unlock with the user and with the owner password, refuse a wrong one, and give back the page
+// text and the title.
+fn cmd_writer_configs(full: bool) {
+    use oxidize_pdf::document::{DocumentEncryption, EncryptionStrength};
+    use oxidize_pdf::encryption::Permissions;
+    use oxidize_pdf::parser::PdfReader;
+    use oxidize_pdf::text::ExtractionOptions;
+    use oxidize_pdf::writer::WriterConfig;
+    const MARK: &str = "RoundTripMarker42";
+    let mut evaluated = 0u64; let mut bad: Vec<String> = vec![]; let mut nbad = 0u64;
+    let strengths: [(&str, Option<EncryptionStrength>); 5] = [("none", None), ("rc4-40", Some(EncryptionStrength::Rc4_40bit)), ("rc4-128", Some(EncryptionStrength::Rc4_128bit)), ("aes-128", Some(EncryptionStrength::Aes128)), ("aes-256", Some(EncryptionStrength::Aes256))];
+    for xs in [false, true] { for os in [false, true] { for comp in [false, true] { for (sname, strength) in strengths { for (upw, opw) in [("u", "o"), ("", "owner")] {
+        if strength.is_none() && upw.is_empty() { continue; }
+        // quick tier: the object-stream configurations are slow to write and read in a debug build (seconds each), so only the
+        // compressed ones are kept, with AES only for the all-streams configuration; the thorough tier runs everything
+        if !full && (upw.is_empty() || (sname == "rc4-40" && os) || (sname == "aes-256" && !(xs && os && comp))
+            || (os && !comp) || (os && sname == "aes-128" && !xs)) { continue; }
+        evaluated += 1;
+        let what = format!("xref_streams={xs} object_streams={os} compress={comp} encryption={sname} user_pw={upw:?}");
+        let r = panic::catch_unwind(|| -> Result<(), String> {
+            let mut doc = oxidize_pdf::Document::new();
+            doc.set_title("Title T");
+            let mut page = oxidize_pdf::Page::new(595.0, 842.0);
+            page.text().set_font(oxidize_pdf::Font::Helvetica, 24.0).at(72.0, 760.0).write(MARK).map_err(|e| e.to_string())?;
+            page.add_annotation(oxidize_pdf::annotations::TextAnnotation::new(oxidize_pdf::geometry::Point::new(100.0, 700.0)).with_contents("Note (contents)").to_annotation());
+            doc.add_page(page);
+            // restricted permission sets alternate with the full one (the key derivation depends on /P)
+            let perms = if comp { Permissions::all() } else { Permissions::new() };
+            if let Some(s) = strength { doc.set_encryption(DocumentEncryption::new(upw, opw, perms, s)); }
+            let cfg = WriterConfig { use_xref_streams: xs, use_object_streams: os, pdf_version: if xs || os { "1.5".to_string() } else { "1.7".to_string() }, compress_streams: comp, incremental_update: false };
+            let t0 = std::time::Instant::now();
+            let bytes = doc.to_bytes_with_config(cfg).map_err(|e| format!("write: {e}"))?;
+            if std::env::var("VERIF_TIMING").is_ok() { eprintln!("write {:?}", t0.elapsed()); }
+            for (role, pw) in [("user", upw), ("owner", opw)] {
+                let t1 = std::time::Instant::now();
+                let mut reader = PdfReader::new_with_options(std::io::Cursor::new(bytes.clone()), ParseOptions::strict()).map_err(|e| format!("strict open: {e}"))?;
+                if strength.is_some() {
+                    if !reader.is_encrypted() { return Err("written with encryption but the reader does not see an encrypted file".to_string()); }
+                    let wrong = reader.unlock_with_password("definitely-wrong").map_err(|e| format!("unlock(wrong): {e}"))?;
+                    if wrong { return Err("a wrong password unlocked the file".to_string()); }
+                    let okk = reader.unlock_with_password(pw).map_err(|e| format!("unlock({role}): {e}"))?;
+                    if !okk { return Err(format!("the {role} password did not unlock the file")); }
+                } else if role == "owner" { continue; }
+                if std::env::var("VERIF_TIMING").is_ok() { eprintln!("  open+unlock {role} {:?}", t1.elapsed()); }
+                let pdfdoc = reader.into_document();
+                let n = pdfdoc.page_count().map_err(|e| format!("page_count: {e}"))?;
+                if n != 1 { return Err(format!("page count {n}")); }
+                let text = pdfdoc.extract_text_from_page_with_options(0, ExtractionOptions::default()).map_err(|e| format!("extract: {e}"))?.text;
+                if !text.contains(MARK) { return Err(format!("[{role}] page text not recovered: {:?}", text.chars().take(40).collect::<String>())); }
+                if std::env::var("VERIF_TIMING").is_ok() { eprintln!("  extract {role} {:?}", t1.elapsed()); }
+                let annots = pdfdoc.get_page_annotations(0).map_err(|e| format!("annotations: {e}"))?;
+                let contents: Vec<Vec<u8>> = annots.iter().filter_map(|a| a.get("Contents").and_then(|o| o.as_string()).map(|s| s.as_bytes().to_vec())).collect();
+                if contents != vec![b"Note (contents)".to_vec()] { return Err(format!("[{role}] annotation /Contents read back as {:?}", contents)); }
+                let md = pdfdoc.metadata().map_err(|e| format!("metadata: {e}"))?;
+                if md.title.as_deref() != Some("Title T") { return Err(format!("[{role}] title read back as {:?}", md.title)); }
+            }
+            Ok(())
+        });
+        let ok = matches!(&r, Ok(Ok(())));
+        if !ok { nbad += 1; if bad.len() < 80 { bad.push(format!("{{\"config\":{},\"problem\":{}}}", js(&what), js(&match r { Ok(Err(e)) => e, _ => "PANIC".to_string() }))); } }
+    } } } } }
+    println!("{{\"cmd\":\"writer-configs\",\"bound\":\"8 writer configurations x {} encryption strengths x {} password pairs, strict parser, both passwords\",\"evaluated\":{},\"disagreement_count\":{},\"disagreements\":[{}]}}", if full { "5" } else { "3 (+ AES-256 for one configuration)" }, if full { 2 } else { 1 }, evaluated, nbad, bad.join(","));
+}
+
 fn cmd_fmt() {
     // Ec: the concrete contracts of the R6 formatting stubs used by Verus units, over all 256 bytes
     let hd = |n: u8| if n < 10 { b'0' + n } else { b'A' + n - 10 };
@@ -874,6 +940,7 @@ fn main() {
         Some("a85hex-roundtrip") => cmd_a85hex_roundtrip(args.get(2).and_then(|s| s.parse().ok()).unwrap_or(4)),
         Some("fmt") => cmd_fmt(),
         Some("opnames") => cmd_opnames(),
+        Some("writer-configs") => cmd_writer_configs(args.get(2).map(|s| s == "full").unwrap_or(false)),
         Some("notes-history") => cmd_notes_history(args.get(2).and_then(|s| s.parse().ok()).unwrap_or(3)),
         Some("filters-roundtrip") => cmd_filters_roundtrip(args.get(2).and_then(|s| s.parse().ok()).unwrap_or(20000)),
         Some("revisions") => cmd_revisions(args.get(2).and_then(|s| s.parse().ok()).unwrap_or(2)),
